@@ -211,7 +211,6 @@ def parse_clauses(text):
 
 KNOWN_DIRECTIVES = {("parallel",), ("for",), ("parallel", "for"), ("critical",), ("barrier",)}
 DATA_PRIVATE = {"private", "firstprivate", "lastprivate", "linear"}
-HARMLESS_CLAUSES = {"schedule", "num_threads", "if", "proc_bind", "collapse_1"}
 
 
 # ------------------------------------------------------------------------------------------------ clang front end
